@@ -398,7 +398,15 @@ def coreStep (st : CoreSt) (j : Json) : Except String (CoreSt × String) := do
     | some pre =>
         (pre.liveApps.map (fun a => (a.items.filter (fun i => i.inflightReal && ((relKey != "" && i.key == relKey) || (relApp != "" && a.id == relApp)))).map (·.key))).flatten
     | none => []
-  let lost := st.lostInflight ++ releasedNow
+  -- (same class when the placeholder timeout already dropped the real ask of the in-flight swap — C03.I7o, recorded in
+  --  lostTimeout — and the shim releases that key while the placeholder still names it as its replacement: the item that
+  --  carried `inflightReal` is gone, the in-flight allocation is not)
+  let releasedAfterTimeout : List String := match st.prev with
+    | some pre =>
+        if relKey != "" && st.lostTimeout.contains relKey &&
+            pre.liveApps.any (fun a => a.items.any (fun i => i.ph && i.release == some relKey)) then [relKey] else []
+    | none => []
+  let lost := st.lostInflight ++ releasedNow ++ releasedAfterTimeout
   -- Known class (KNOWN_FINDINGS C03.I7o): the placeholder timeout of an application that is not yet Running drops every
   -- ask (removeAsksInternal("")), also the real ask whose replacement on another node is in flight
   let timedOutNow : List String := match st.prev with
